@@ -12,6 +12,9 @@ from __future__ import annotations
 
 from gscrib.excepts import CoolantStateError, ToolStateError
 
+from gscrib.excepts import DeviceError
+from gscrib.writers import BaseWriter
+
 from harness import stateops
 from harness.session import Session
 
@@ -23,7 +26,8 @@ RULE = ("random histories (40-60 calls) over tool_on/off, power_on/off, coolant_
         "halt (9 modes, with/without S/R), pause, stop, wait, emergency_halt interleaved with moves "
         "(with S/F words), probes, mode/unit/plane changes and temperature commands, arguments from a "
         "grid incl. invalid ones; non-trivial = guarded operation attempted; distinct = (tool, coolant, "
-        "operation, outcome class) tuples; every (tool,coolant) x guarded-op pair must be attempted")
+        "operation, outcome class) tuples; a quarter of the histories have a second output, registered after "
+        "the recording one, that fails with DeviceError on 5-15 % of its writes; every (tool,coolant) x guarded-op pair must be attempted")
 ASSUMPTIONS = [
     "wire automaton: M3/M4 start, M5 stop, M7/M8 coolant on, M9 off, M6 tool change, M0/M1/M2/M30/M60/M109/M190/M191/M400 halt codes",
     "argument validity model: speeds/powers/feeds >= 0, tool number >= 1, enum strings from the documented sets",
@@ -41,10 +45,37 @@ FLOORS = {
 GUARDED = ["tool_on", "power_on", "coolant_on", "tool_change", "halt", "pause", "stop", "wait"]
 
 
+class FailingWriter(BaseWriter):
+    """A second output (registered AFTER the recording writer) that now and then fails with DeviceError,
+    as a device writer does when the link drops: the line has reached the first output by then."""
+
+    def __init__(self, rng, p):
+        self.rng, self.p = rng, p
+
+    def connect(self):
+        return self
+
+    def disconnect(self, wait=True):
+        pass
+
+    def flush(self):
+        pass
+
+    def write(self, statement):
+        if self.rng.random() < self.p:
+            raise DeviceError("injected output fault")
+
+
 def run_case(ctx, col, case):
     rng = ctx.rng(case)
     s = Session(dp=rng.choice([3, 5]))
     model = stateops.Model()
+    failing = None
+    if rng.random() < 0.25:
+        import random
+        failing = FailingWriter(random.Random(rng.randrange(1 << 30)), rng.choice([0.05, 0.15]))
+        s.g.add_writer(failing)
+        col.count("histories_with_a_failing_second_output")
     log = []
     checked_events = 0
     for _ in range(ctx.params["calls"]):
@@ -80,7 +111,16 @@ def run_case(ctx, col, case):
         blocked_tool = op.needs_tool_off and model.tool
         blocked_cool = op.needs_coolant_off and model.coolant
         blocked = blocked_tool or blocked_cool
-        if outcome == "ok":
+        if failing is not None and isinstance(exc, DeviceError):
+            # the fault hit after the line(s) had reached the first output: the machine is in the state
+            # the wire shows, and the builder must go on enforcing the interlocks against THAT state
+            if blocked and events:
+                bad("guarded-call-emitted-in-forbidden-state-before-output-fault")
+                return
+            model.tool, model.coolant = s.m.tool_on, s.m.coolant is not None
+            col.count("output_faults_injected")
+            cls = "DeviceError"
+        elif outcome == "ok":
             if blocked:
                 bad("guarded-call-accepted-in-forbidden-state")
                 return
